@@ -55,6 +55,8 @@ Step ==
   \/ \E a \in Addrs : NodeRecover(truth, a)
   \/ \E l \in Lists : NodeRecover(l, C0addr)
   \/ \E l \in Lists : ControlLost(l)
+  \/ Heal(truth)
+  \/ \E l \in Lists : Reconnect(l)
 
 Next == steps < MaxLevel - 1 /\ steps' = steps + 1 /\ Step
 
